@@ -651,6 +651,33 @@ pub fn main(args: Args) -> i32 {
             }
         }
     }
+    // long lists through the complete law set: every option combination against the reference stable
+    // sort, groupby, unique, batch, slice, min, max, reverse.  Library sorts switch algorithm with the
+    // input length (insertion sort below ~20 elements, run detection, different strategies for
+    // unstable variants above 32), so stability and the other laws are decided at lengths on both
+    // sides of those thresholds, over scrambles of the mixed alphabet (which holds values that compare
+    // equal but are distinguishable: 1 / 1.0 / true, 'a' / 'A' when case is ignored)
+    {
+        let lens: &[usize] = if full { &[21, 32, 33, 40, 64, 65, 100, 129, 300, 1000] } else { &[21, 32, 33, 40, 64, 65, 100, 129, 300] };
+        let base = fa.len();
+        let mut jobs: Vec<Vec<usize>> = vec![];
+        for &len in lens {
+            for (mul, div) in [(1usize, 1usize), (3, 1), (5, 2), (7, 3), (1, 4)] {
+                for off in 0..base {
+                    // scrambled, with runs (div > 1) and with long sorted / reversed stretches (mul == 1)
+                    jobs.push((0..len).map(|i| (off + mul * i + i / div * 3) % base).collect());
+                    jobs.push((0..len).map(|i| (off + mul * (len - i) + (i * i) % 5) % base).collect());
+                }
+            }
+        }
+        acc.count("long_filter_input_lists", jobs.len() as u64);
+        par_chunks(jobs.len() as u64, 4, &acc, |r, l| {
+            let env = Environment::new();
+            for j in r {
+                check_filters_on_list(&env, &jobs[j as usize], &fa, &acc, l);
+            }
+        });
+    }
     {
         let env = Environment::new();
         check_reverse_shapes(&env, &acc);
@@ -664,7 +691,7 @@ pub fn main(args: Args) -> i32 {
             level: "exploration",
             tier: args.tier,
             seed: args.seed,
-            rule: format!("all ordered pairs ({n}^2) and all ordered triples ({n}^3) of the {n}-value edge alphabet (every kind; every integer representation at the boundaries{}; floats incl. +-0, inf, NaN, 2^53/2^63/2^64/2^127/2^128; plain/small/safe strings; bytes; lists; tuples; sized and unsized lazy iterables; maps by two construction routes; plain objects; one nesting level) for reflexivity, antisymmetry, eq symmetry, eq<=>cmp==Equal, eq=>hash, <= and == transitivity, agreement of the template operators < <= > >= == != in and of map lookup with the Value-level answers; all lists of length 0..={maxlen} over an 8-value mixed alphabet through sort (4 option combos + attribute), groupby, unique (2), batch and slice (n=1..6, with and without fill), min, max, reverse, each against its defining law; cyclic long lists (21/33/64) through sort/unique/min/max; reverse on 11 enumerator shapes. distinct non-trivial = distinct equal pairs + distinct filter input lists", if full { "" } else { " (quick: narrowest+widest)" }),
+            rule: format!("all ordered pairs ({n}^2) and all ordered triples ({n}^3) of the {n}-value edge alphabet (every kind; every integer representation at the boundaries{}; floats incl. +-0, inf, NaN, 2^53/2^63/2^64/2^127/2^128; plain/small/safe strings; bytes; lists; tuples; sized and unsized lazy iterables; maps by two construction routes; plain objects; one nesting level) for reflexivity, antisymmetry, eq symmetry, eq<=>cmp==Equal, eq=>hash, <= and == transitivity, agreement of the template operators < <= > >= == != in and of map lookup with the Value-level answers; all lists of length 0..={maxlen} over an 8-value mixed alphabet through sort (4 option combos + attribute), groupby, unique (2), batch and slice (n=1..6, with and without fill), min, max, reverse, each against its defining law; cyclic long lists (21/33/64) through sort/unique/min/max; 800 scrambled long lists (lengths 21..300, thorough 1000, around the thresholds at which library sorts change algorithm) through the complete law set of the short lists; reverse on 11 enumerator shapes. distinct non-trivial = distinct equal pairs + distinct filter input lists", if full { "" } else { " (quick: narrowest+widest)" }),
             exhaustive: true,
             bound: json!({"alphabet_size": n, "alphabet": alpha.iter().map(|x| x.name.clone()).collect::<Vec<_>>(), "filter_alphabet": fa.iter().map(|x| x.name.clone()).collect::<Vec<_>>(), "max_list_len": maxlen}),
             assumptions: vec![
